@@ -186,9 +186,13 @@ CLAIMED["C06"] = dict(
          "FORWARD-TSN leaves every stream it does not name alone except for pruning chunks at or below its own "
          "cumulative TSN (sequence counter unchanged, nothing delivered); (6) with ARBITRARY FORWARD-TSN chunks in "
          "between, the deliveries on all streams are messages of pairwise different chunk runs, each the fragment "
-         "list of one sent message: no sent message is delivered twice (chunk accounting of the whole receiver). "
-         "PARTIAL: the ORDER of deliveries on ordered PR channels is proved without FORWARD-TSN only (C01 theorem 5); "
-         "with FORWARD-TSN it is checked by the receiver-level and two-endpoint oracles; end-to-end non-interference and recovery after healing are statements over two endpoints, observed on the "
+         "list of one sent message: no sent message is delivered twice (chunk accounting of the whole receiver); (7) on "
+         "an ordered stream, for every list of admissible events - chunks at or beyond the delivery point and "
+         "FORWARD-TSN chunks as the sender builds them - the deliveries are the messages of a strictly increasing "
+         "list of message indices: in sending order, nothing twice, gaps where messages were abandoned (stale "
+         "messages let through, queues blocked until pruned and the re-poll after pruning included). PARTIAL: theorem "
+         "7 is stated at the stream level (its admissibility hypotheses are what TSN dedupe and the sender's "
+         "FORWARD-TSN construction provide; that composition is not mechanised); end-to-end non-interference and recovery after healing are statements over two endpoints, observed on the "
          "two-endpoint simulator (mixed reliable / PR channels, faults, heal, probe message per channel), not "
          "proved; six genuine stall/loss defects found that way are repaired in /repo.",
     design_ref="5 / C06",
